@@ -76,6 +76,18 @@ def record_selection(X, y, X_selected, y_selected, selected_idx, n_selected, las
     return X_selected, y_selected, selected_idx, n_selected + 1
 
 
+def prefix_init(X, y, first, second, n, axis, with_y):
+    # a search initialised with the picks (first, second) has recorded them exactly as two
+    # selection steps would: data, targets, indices and the counter
+    if with_y:
+        X_selected, selected_idx, y_selected = init_buffers(X, y, n, axis, with_y)
+    else:
+        X_selected, selected_idx = init_buffers(X, y, n, axis, with_y)
+        y_selected = None
+    X_selected, y_selected, selected_idx, k = record_selection(X, y, X_selected, y_selected, selected_idx, 0, first, axis, with_y)
+    return record_selection(X, y, X_selected, y_selected, selected_idx, k, second, axis, with_y)
+
+
 def continue_buffers(X_selected, y_selected, selected_idx, n_selected, n, axis, with_y):
     # warm start: extend every buffer to extent n on the selection axis, keeping the prefix
     if axis == 1:
